@@ -89,5 +89,30 @@ def rule_mix_copy(ctx):
     return _rule(ctx, "ftype.mix[copy]", "copy operations read the source forest and build in the target forest only", lambda f: f in COPY, 8, want_entry=False)
 
 
+def rule_ct_slots(ctx):
+    """the part of ftype that concerns the compute table: a handle put into a NODE slot of a key / result belongs to the forest the
+    constructor declared for that slot (cache counts and stale tests are taken in the declared forest), and a hit is linked in the result forest"""
+    R = RuleResult("ftype.ct-slots", "every handle stored in a NODE slot of a compute-table key or result belongs to the forest the entry type declares for that slot, and what a hit returns is used with the declared result forest")
+    fns, nunits = ftype_results(ctx)
+    n = 0
+    for f in sorted(fns, key=lambda f: (f["file"], f["line"], f["inst"])):
+        if f["file"] not in OWN_SCOPE_FILES or f.get("gave_up"):
+            continue
+        ds = [d for d in f["diags"] if "NODE slot" in d["sink"] or "res[" in d["sink"] or "getN()" in d["msg"]]
+        uses_ct = f["checks"] > 0 and any(k in f["q"] for k in ("_compute", "compute", "saturate", "recFire", "fillSplit"))
+        if not ds and not uses_ct:
+            continue
+        R.functions.add(f["inst"])
+        R.paths += f["states"]
+        if not ds:
+            R.ok("%s%s" % (f["inst"].replace(M, ""), f["sig"][:30]), "src/%s:%d" % (f["file"], f["line"]))
+            continue
+        for d in ds:
+            R.fail("%s: %s" % (f["inst"].replace(M, ""), d["sink"]), "src/%s:%d" % (f["file"], d["line"]),
+                   Finding("ftype.ct-slots", f["file"], base_name(f["q"]), d["sink"], d["msg"] + " — cache counts and dead/stale tests for that slot are then taken in the wrong forest", d["line"], inst=f["inst"]))
+    R.require_floor(150, "compute functions with typed compute-table slots")
+    return R
+
+
 def rule_entry(ctx):
     return _rule(ctx, "ftype.entry", "public entry points validate the forests of their edge arguments before the edges' nodes reach forest-typed positions", lambda f: f in ENTRY, 20, want_entry=None)
